@@ -745,7 +745,7 @@ fn exercise(name: &str, spec: &ProgSpec, rng: &mut Rng, n_tuples: usize) -> Out1
 
 pub fn run(seed: u64, tier: &str, ev: &mut Evidence) -> Vec<Violation> {
     let thorough = tier == "thorough";
-    let (n_gen, n_tuples, n_nest) = if thorough { (12_000usize, 10usize, 1200usize) } else { (450, 6, 150) };
+    let (n_gen, n_tuples, n_nest) = if thorough { (30_000usize, 10usize, 3000usize) } else { (450, 6, 150) };
     let mut specs: Vec<(String, ProgSpec)> = work::corpus_specs().into_iter().filter(|(_, s)| s.source().is_some()).map(|(n, s)| (format!("corpus:{}", n), s)).collect();
     for j in 0..n_gen {
         let mut rng = Rng::for_case(seed, "C06", "workload", j as u64);
